@@ -604,7 +604,8 @@ def model_to_valuation(model, run):
     """Solver model -> {input name: float}; phase atoms from their (cos, sin) pair."""
     vals = {}
     for name in run.ctx.inputs:
-        if name in run.ctx.phase_atoms:
+        if name in run.ctx.phase_atoms and feval.parse_model_value(model.get(name)) is None:
+            # the angle itself does not occur in the query (only its unit pair does)
             c, s = run.ctx.phase_atoms[name]
             cv = feval.parse_model_value(model.get(c.decl().name()))
             sv = feval.parse_model_value(model.get(s.decl().name()))
@@ -713,7 +714,7 @@ def run_harness(harness, tier="quick", seed=0, replay=None, verbose=True):
     for case in cases:
         try:
             r = explore_case(harness, case, seed, max_paths=max_paths, feasibility=feas,
-                             time_budget=getattr(harness, "CASE_TIME_BUDGET", {}).get(tier, 300))
+                             time_budget=getattr(harness, "CASE_TIME_BUDGET", {}).get(tier, 120 if tier == "quick" else 600))
         except (HarnessError, C.Unsupported) as e:
             # inconclusive for this case only: violations found in other cases are still reported
             case_problems.append(f"case {case.name}: {type(e).__name__}: {e}")
